@@ -9,7 +9,7 @@ Grammar (Envoy XFCC): ``element *("," element)``, element = ``pair *(";" pair)``
   Q  a quoted string (``\\`` and ``"`` backslash-escaped) — may contain ``, ; = " \\`` and spaces;
   U  an unquoted token (no ``, ; "``, no leading/trailing blank; ``=`` and ``\\`` allowed);
   E  an unquoted token whose double quotes are written ``\\"`` (Envoy: "double quotes in the value are replaced
-     by ``\\"``"; quoting is only required for ``, ; =``) — texts with ``"`` and without ``, ; \\``.
+     by ``\\"``"; quoting is only required for ``, ; =``) — texts with ``"`` and without ``, ; = \\``.
   ``URI``/``By``/``Cert`` values are URL-encoded on the wire (expected value = percent-decoded), the other keys
   are literal.
 
@@ -101,7 +101,7 @@ def modes_for(t: str) -> list[str]:
     m = ["Q"]
     if t == t.strip() and not any(c in t for c in ',;"'):
         m.append("U")
-    if t == t.strip() and '"' in t and not any(c in t for c in ",;\\"):
+    if t == t.strip() and '"' in t and not any(c in t for c in ",;=\\"):
         m.append("E")
     return m
 
@@ -331,13 +331,14 @@ def check_header(ctx: Ctx, real: Real, header: str, exp: list[dict[str, Any]], p
             elif not claims_ok(want_claims, dict(r.claims)):
                 problems.append((f"claims-{sel}", f"select={sel}: claims {dict(r.claims)!r}, the selected element gives {want_claims!r}"))
             outcome = f"ctx:{r.principal}"[:16]
-        kind2, r2 = real.call(sel, True, req)
-        if kind2 != "ctx" or len(real.captured) != 1:
-            problems.append(("validate-hook", f"select={sel}: validate path gave {kind2} {r2!r:.100}"))
-        else:
-            d = elem_diff(exp[idx], elem_dict(real.captured[0]))
-            if d is not None:
-                problems.append((f"validate-{sel}", f"select={sel}: validate() received an element whose {d} is not the selected element's"))
+        if len(exp) > 1 or sel == "first":  # single element: the validate path is exercised once (select=first)
+            kind2, r2 = real.call(sel, True, req)
+            if kind2 != "ctx" or len(real.captured) != 1:
+                problems.append(("validate-hook", f"select={sel}: validate path gave {kind2} {r2!r:.100}"))
+            else:
+                d = elem_diff(exp[idx], elem_dict(real.captured[0]))
+                if d is not None:
+                    problems.append((f"validate-{sel}", f"select={sel}: validate() received an element whose {d} is not the selected element's"))
         ctx.case(sample={**desc, "select": sel, "header": header[:200], "outcome": outcome} if sample else None,
                  nontrivial=cls, outcome=outcome)
     if problems:
@@ -456,12 +457,15 @@ def run_dn(ctx: Ctx, real: Real, dn: str, want: Any) -> None:
             exp_p = want if idx == j else f"u{idx + 1}"
             kind, r = real.call(sel, False, req)
             ok = kind == "ctx" and field_ok(exp_p, r.principal) and (idx != j or r.claims.get("subject") == dn)
+            why = "" if kind != "ctx" or field_ok(exp_p, r.principal) else "principal"
+            if kind == "ctx" and not why and not ok:
+                why = f"claims subject {r.claims.get('subject')!r} != DN"
             ctx.case(nontrivial=f"DN{n}{j}{sel[0]}{'E' if isinstance(want, frozenset) else ''}{'c' if want else 'n'}", outcome=f"{kind}:{getattr(r, 'principal', r)}"[:16],
                      sample={"dn": dn, "header": header, "select": sel, "principal": getattr(r, "principal", None)} if (dn.startswith("OU=a\\,CN=evil,CN") and n == 2 and j == 1 and sel == "last") else None)
             if not ok:
                 esc = "escaped-comma" if "\\," in dn else "plain"
                 ctx.fail(f"xfcc:dn:principal-{esc}",
-                         f"select={sel}: DN {dn!r} -> {kind} {getattr(r, 'principal', r)!r}, expected CN {exp_p!r}; header={header!r}",
+                         f"select={sel}: DN {dn!r} -> {kind} {getattr(r, 'principal', r)!r}, expected CN {exp_p!r} ({why}); header={header!r}",
                          {"kind": "dn", "dn": dn, "want": sorted(want) if isinstance(want, frozenset) else want})
 
 
